@@ -399,6 +399,8 @@ func (c *FnCtx) convert(st *State, v SV, from, to types.Type) SV {
 					sa := c.vc.Declare("strat", []Sort{SStr, SInt}, SInt)
 					c.vc.Assert(Term{fmt.Sprintf("(forall ((i Int)) (! (= (select %s i) (%s %s i)) :pattern ((select %s i))))", fa.S, sa, x.T.S, fa.S), SBool})
 					c.heapSet(st, name, c.vc.Name("h", Store(h, arr, fa)))
+					// the text held by that byte range is the string (read back by io.Writer models)
+					c.vc.Assert(Eq(c.uf("slicetext", SStr, fa, IntLit(0), n), x.T))
 					return Sl{arr, IntLit(0), n, n}
 				}
 				ln := c.vc.Fresh("cvlen", SInt)
